@@ -257,6 +257,9 @@ func c11Run(c *core.Ctx) {
 	if c.Shard == 0 && !c.Replaying {
 		runRacePass(c)
 	}
+	if c.Shard == 1%c.N && !c.Replaying {
+		c11Histories(c)
+	}
 	for _, sc := range c11Scenarios {
 		// every schedule with at most one preemption over ALL points (scanner restarts, every write, …)
 		c11Explore(c, sc, c11Full, 1)
@@ -280,6 +283,58 @@ func c11Run(c *core.Ctx) {
 			c11Explore(c, sc, c11Full, 2)
 		}
 	}
+}
+
+// c11Histories — sequential E-hist: every sequence of <= 3 pipelines over a set of programs chosen to leave
+// something behind (errors at the very end or start of the input, unterminated constructs, heredocs, both
+// families); the result of the last pipeline must not depend on what ran before it in the same process.
+var c11HistJobs = []c11Job{
+	{"<?php $a = 1;", "7.4"}, {"<?php $a = 1;", "5.6"},
+	{"<?php ) $a = 1; foo();", "7.4"}, {"<?php ) $a = 1; foo();", "5.6"},
+	{"<?php $a = 1; foo(", "7.4"}, {"<?php $a = 1; foo(", "5.6"},
+	{"<?php $a = <<<A\nx $b\n", "7.4"}, {"<?php $a = <<<A\nx\nA;\n$c = \"d $e", "7.2"},
+	{"<?php class { } function ( { $x = ; }", "7.4"}, {"<?php foreach ($a as &$k => $v) {} trait T extends B {}", "5.6"},
+	{"<?php namespace N; use A\\B; new B; /* open", "7.4"}, {"<html><?php if ($a): ?>x<?php endif; ?>\n", "5.3"},
+	{"<?php \x01 1 +", "7.0"}, {"", "7.4"},
+}
+
+func c11Histories(c *core.Ctx) {
+	verifhook.Point, verifhook.Tick = nil, nil
+	drive.SetBlockSize(smallBlock)
+	n := len(c11HistJobs)
+	first := make([]string, n)
+	have := make([]bool, n)
+	var seqs [][]int
+	for a := 0; a < n; a++ {
+		seqs = append(seqs, []int{a})
+		for b := 0; b < n; b++ {
+			seqs = append(seqs, []int{a, b})
+			for d := 0; d < n; d++ {
+				seqs = append(seqs, []int{a, b, d})
+			}
+		}
+	}
+	for _, seq := range seqs {
+		var out string
+		for _, i := range seq {
+			out = c11Pipeline(nil, c11HistJobs[i], c11Full)
+			c.P.Trans++
+		}
+		last := seq[len(seq)-1]
+		if !have[last] {
+			have[last], first[last] = true, out
+			continue
+		}
+		if out != first[last] {
+			var names []string
+			for _, i := range seq {
+				names = append(names, fmt.Sprintf("%q@%s", c11HistJobs[i].Src, c11HistJobs[i].Ver))
+			}
+			c.Report("the result of a pipeline depends on what ran before it in the same process", mkWhat("history %s: %s", strings.Join(names, " ; "), firstDiffStr(first[last], out)), nil)
+			return
+		}
+	}
+	c.Stat("sequential_histories", int64(len(seqs)))
 }
 
 func c11Replay(c *core.Ctx, raw json.RawMessage) {
@@ -324,7 +379,7 @@ func init() {
 	register(&core.Check{
 		Prop: "C11", Level: "exploration", Exhaust: true, QuickSecs: 900, ThorSecs: 3600, OneProc: true,
 		Rule: "pipelines parse -> print -> dump(tokens+positions) -> traverse+resolve run as goroutines under a cooperative scheduler; a thread can be switched at every Parser.Lex call (overlay hook), every error callback, every Write of the printer and dumper, every EnterNode/LeaveNode of the resolver (and, in two scenarios, at every scanner restart). Depth-first enumeration of ALL schedules with <= 1 preemption over all of these points plus every scanner restart, and of ALL schedules with <= 2 preemptions over the coarser point set (Lex calls, error callbacks, every printer write, every 8th dumper write, EnterNode) (thorough: 3 longer pipelines, bound 3 on short programs, bound 2 over all points for four scenarios), for 12 two-pipeline scenarios chosen to collide on anything global (same family, both families, same text, heredoc labels, error path, 7.2 vs 7.4, resolver tables, printer state) and one three-pipeline scenario. " +
-			"Oracle: every observation of every pipeline (tree with tokens and positions, printed bytes, dump text, error list, sorted resolved names, input buffer) equals its sequential baseline in every schedule; two sequential runs agree. states = schedules executed, transitions = scheduling decisions taken; distinct outcome vectors per scenario must be 1. A free-running -race pass over the same pipelines complements this (sampling, never deciding).",
+			"Oracle: every observation of every pipeline (tree with tokens and positions, printed bytes, dump text, error list, sorted resolved names, input buffer) equals its sequential baseline in every schedule; two sequential runs agree. states = schedules executed, transitions = scheduling decisions taken; distinct outcome vectors per scenario must be 1. Plus sequential histories: every sequence of <= 3 pipelines over 14 programs (errors at the start/end of input, unterminated constructs, both families) — the last result must not depend on its predecessors. A free-running -race pass over the same pipelines complements this (sampling, never deciding).",
 		Assume: []string{"interference finer than the yield points is left to the race detector pass"},
 		Run:    c11Run,
 		Replay: c11Replay,
